@@ -45,7 +45,7 @@ MANIFEST = {
     "hooks": {
         "guard": "capy_verif",
         "enable": "RUSTFLAGS='--cfg capy_verif' (set in harness/.cargo/config.toml; the harness crate has path dependencies on /repo/crates/* and is rebuilt by every check)",
-        "baseline_off_cmd": "cd /repo && cargo test --workspace --no-fail-fast --offline",
+        "baseline_off_cmd": "cd /repo && cargo nextest run --workspace --no-fail-fast --tool-config-file pb:/w/lib/nextest.toml --profile pb --test-threads 8 --offline  (fallback: cargo test --workspace --no-fail-fast --offline)",
         "source_commits": ["09b43ca (H1 codegen::verif)", "0a1ad0f (H2 parser::verif::parse_traced)", "fcaf8a2 (H3 topo::verif op log)"],
         "add_only": True,
     },
